@@ -169,6 +169,30 @@ pub fn verif_crash_point(label: &str) {
     }
 }
 
+#[cfg(chialisp_verif)]
+thread_local! {
+    static VERIF_EVENTS: std::cell::RefCell<Vec<String>> = const { std::cell::RefCell::new(Vec::new()) };
+}
+
+/// Verification hook (only with --cfg chialisp_verif): record one event (a line
+/// of JSON) on the current thread.  Events are kept in memory until taken.
+#[cfg(chialisp_verif)]
+pub fn verif_event(line: String) {
+    VERIF_EVENTS.with(|e| {
+        let mut e = e.borrow_mut();
+        if e.len() < 100_000 {
+            e.push(line);
+        }
+    });
+}
+
+/// Verification hook (only with --cfg chialisp_verif): take the events recorded
+/// on this thread since the last call.
+#[cfg(chialisp_verif)]
+pub fn verif_take_events() -> Vec<String> {
+    VERIF_EVENTS.with(|e| std::mem::take(&mut *e.borrow_mut()))
+}
+
 pub fn atomic_write_file(
     input_path: &str,
     output_path: &str,
